@@ -297,6 +297,7 @@ func runRX(c *Ctx) (obls []Obl) {
 	c.stat("RX", "product_states", total)
 	c.stat("RX", "models", len(refs.Models))
 	rxStatus(c, a, parsers)
+	rxElided(c, a)
 	return
 }
 
@@ -426,4 +427,260 @@ func runtimeStrings(dir string) []string {
 		})
 	}
 	return out
+}
+
+// ---------------------------------------------------------------------------
+// RX-elided: isFramesElidedLine is not regexp based. The two marker shapes
+// the runtime prints are described as string families (fixed prefix, fixed
+// suffix, minimal length); the decision tree of the function is evaluated
+// over each family with may/must semantics: no path that some string of the
+// family can take may return false.
+
+type strFamily struct {
+	name   string
+	exact  string // non-empty: the family is this single string
+	prefix string
+	suffix string
+	minLen int
+}
+
+func (f strFamily) first() (byte, bool) {
+	if f.exact != "" {
+		return f.exact[0], true
+	}
+	if f.prefix != "" {
+		return f.prefix[0], true
+	}
+	return 0, false
+}
+
+// may reports whether the literal can be true / can be false for some string of the family.
+// intOf evaluates constant integer expressions including len(global []byte).
+func intOf(c *Ctx, e *Expr) (int64, bool) {
+	if v, ok := e.intConst(); ok {
+		return v, true
+	}
+	if e.Op == OpBuiltin && e.Name == "len" && len(e.Args) == 1 {
+		if g := e.Args[0].globalLoaded(); g != nil {
+			if s, ok := bytesGlobal(c.L, "stack", g.Name()); ok {
+				return int64(len(s)), true
+			}
+		}
+		if s, ok := constStr(e.Args[0]); ok {
+			return int64(len(s)), true
+		}
+	}
+	if e.Op == OpBin && len(e.Args) == 2 {
+		x, ok1 := intOf(c, e.Args[0])
+		y, ok2 := intOf(c, e.Args[1])
+		if ok1 && ok2 {
+			switch e.Tok {
+			case token.ADD:
+				return x + y, true
+			case token.SUB:
+				return x - y, true
+			case token.MUL:
+				return x * y, true
+			}
+		}
+	}
+	return 0, false
+}
+
+func (f strFamily) may(c *Ctx, at *Expr) (canT, canF, known bool) {
+	bytesOf := func(e *Expr) (string, bool) {
+		x := e
+		for x != nil && x.Op == OpConvert {
+			x = x.Args[0]
+		}
+		if s, ok := constStr(x); ok {
+			return s, true
+		}
+		if g := e.globalLoaded(); g != nil {
+			return bytesGlobal(c.L, "stack", g.Name())
+		}
+		if e.Op == OpSlice && e.Args[0].Op == OpAlloc {
+			return "", false
+		}
+		return "", false
+	}
+	switch {
+	case at.calleeIs("bytes", "Equal") && len(at.Args) == 3:
+		k, ok := bytesOf(at.Args[2])
+		if !ok {
+			return true, true, false
+		}
+		if f.exact != "" {
+			return f.exact == k, f.exact != k, true
+		}
+		in := len(k) >= f.minLen && strings.HasPrefix(k, f.prefix) && strings.HasSuffix(k, f.suffix)
+		return in, true, true
+	case at.calleeIs("bytes", "HasPrefix") && len(at.Args) == 3:
+		k, ok := bytesOf(at.Args[2])
+		if !ok {
+			return true, true, false
+		}
+		if f.exact != "" {
+			h := strings.HasPrefix(f.exact, k)
+			return h, !h, true
+		}
+		if len(k) <= len(f.prefix) {
+			h := strings.HasPrefix(f.prefix, k)
+			return h, !h, true
+		}
+		return strings.HasPrefix(k, f.prefix), true, true
+	case at.calleeIs("bytes", "HasSuffix") && len(at.Args) == 3:
+		k, ok := bytesOf(at.Args[2])
+		if !ok {
+			return true, true, false
+		}
+		if f.exact != "" {
+			h := strings.HasSuffix(f.exact, k)
+			return h, !h, true
+		}
+		if len(k) <= len(f.suffix) {
+			h := strings.HasSuffix(f.suffix, k)
+			return h, !h, true
+		}
+		return strings.HasSuffix(k, f.suffix), true, true
+	case at.Op == OpBin && at.Tok == token.LSS:
+		// len(line) < K  or  K < len(line)
+		if l := at.Args[0]; l.Op == OpBuiltin && l.Name == "len" && l.Args[0].Op == OpParam {
+			if k, ok := intOf(c, at.Args[1]); ok {
+				if f.exact != "" {
+					h := int64(len(f.exact)) < k
+					return h, !h, true
+				}
+				return int64(f.minLen) < k, true, true
+			}
+		}
+		if r := at.Args[1]; r.Op == OpBuiltin && r.Name == "len" && r.Args[0].Op == OpParam {
+			if k, ok := intOf(c, at.Args[0]); ok {
+				if f.exact != "" {
+					h := k < int64(len(f.exact))
+					return h, !h, true
+				}
+				return true, k >= int64(f.minLen), true
+			}
+		}
+	case at.Op == OpBin && at.Tok == token.EQL:
+		// len(line) == K, line[0] == c
+		if l := at.Args[0]; l.Op == OpBuiltin && l.Name == "len" && l.Args[0].Op == OpParam {
+			if k, ok := at.Args[1].intConst(); ok {
+				if f.exact != "" {
+					h := int64(len(f.exact)) == k
+					return h, !h, true
+				}
+				return k >= int64(f.minLen), true, true
+			}
+		}
+		if ix := loadOf(at.Args[0]); ix != nil && ix.Op == OpIndexAddr && ix.Args[0].Op == OpParam {
+			if i, ok := ix.Args[1].intConst(); ok && i == 0 {
+				if k, ok := at.Args[1].intConst(); ok {
+					if b, okb := f.first(); okb {
+						h := int64(b) == k
+						return h, !h, true
+					}
+				}
+			}
+		}
+		if at.Args[0].Op == OpIndex && at.Args[0].Args[0].Op == OpParam {
+			if i, ok := at.Args[0].Args[1].intConst(); ok && i == 0 {
+				if k, ok := at.Args[1].intConst(); ok {
+					if b, okb := f.first(); okb {
+						h := int64(b) == k
+						return h, !h, true
+					}
+				}
+			}
+		}
+	}
+	return true, true, false
+}
+
+func rxElided(c *Ctx, a *flAgg) {
+	fn := c.MustFunc(a.obls, "RX-elided", "stack", "", "isFramesElidedLine")
+	if fn == nil {
+		return
+	}
+	exprHome = fn.Pkg.Pkg
+	x := &SPE{Fn: fn, MaxVisits: 2}
+	x.Explore()
+	fams := []strFamily{
+		{name: "go<=1.20 marker", exact: "...additional frames elided..."},
+		{name: "go1.21+ marker '...N frames elided...'", prefix: "...", suffix: " frames elided...", minLen: len("...1 frames elided...")},
+	}
+	for _, f := range fams {
+		ok := true
+		why := ""
+		for _, p := range x.Paths {
+			if p.Term != "return" || len(p.Results) != 1 {
+				continue
+			}
+			feasible := true
+			for _, lt := range p.Lits {
+				canT, canF, _ := f.may(c, lt.Atom)
+				if (lt.Pol && !canT) || (!lt.Pol && !canF) {
+					feasible = false
+				}
+			}
+			if !feasible {
+				continue
+			}
+			r := p.Results[0]
+			if v, isC := r.boolConst(); isC {
+				if !v {
+					ok, why = false, "some such line takes the path "+litsString(p)+" and is rejected"
+				}
+				continue
+			}
+			at, pol := normAtom(r)
+			canT, canF, _ := f.may(c, at)
+			if (pol && canF) || (!pol && canT) {
+				ok, why = false, "some such line makes the final test "+r.String()+" fail"
+			}
+		}
+		if ok {
+			a.ok("RX-elided", f.name, "every elided-frames marker of this shape is recognised by isFramesElidedLine (decision tree evaluated over the string family)", fn.Pos())
+		} else {
+			a.bad("RX-elided", f.name, "the runtime prints elided-frames markers that isFramesElidedLine no longer recognises: "+why+" (the dump then ends at the marker and the remaining goroutines are lost)", fn.Pos())
+		}
+	}
+	// and nothing but such markers: every accepting path requires the "..." prefix
+	for _, p := range x.Paths {
+		if p.Term != "return" || len(p.Results) != 1 {
+			continue
+		}
+		if v, isC := p.Results[0].boolConst(); isC && !v {
+			continue
+		}
+		anchored := false
+		for _, lt := range p.Lits {
+			if lt.Pol && (lt.Atom.calleeIs("bytes", "Equal") || lt.Atom.calleeIs("bytes", "HasPrefix")) {
+				anchored = true
+			}
+		}
+		hasSuffixTest := false
+		if at, pol := normAtom(p.Results[0]); pol && at.calleeIs("bytes", "HasSuffix") {
+			if s, ok := constStr(at.Args[2].Args[0]); ok && strings.Contains(s, "frames elided") {
+				hasSuffixTest = true
+			}
+			if g := at.Args[2].globalLoaded(); g != nil {
+				if s, ok := bytesGlobal(c.L, "stack", g.Name()); ok && strings.Contains(s, "frames elided") {
+					hasSuffixTest = true
+				}
+			}
+		}
+		isEq := false
+		for _, lt := range p.Lits {
+			if lt.Pol && lt.Atom.calleeIs("bytes", "Equal") {
+				isEq = true
+			}
+		}
+		if anchored && (isEq || hasSuffixTest) {
+			a.ok("RX-elided", "only-markers", "a line is taken as elided-frames marker only if it is the old marker or starts with '...' and ends with ' frames elided...'", fn.Pos())
+		} else {
+			a.bad("RX-elided", "only-markers", "isFramesElidedLine accepts lines that are not elided-frames markers (the wording tests were widened): ordinary text after a frame is swallowed into the dump", fn.Pos())
+		}
+	}
 }
